@@ -3,6 +3,7 @@ import PlasVerif.Proofs.ConfigInterp
 import PlasVerif.Proofs.ConfigAcyclic
 import PlasVerif.Proofs.ConfigDomain
 import PlasVerif.Proofs.ConfigTotal
+import PlasVerif.Proofs.ConfigDest
 import PlasVerif.Proofs.ConfigRouting
 import PlasVerif.Proofs.ConfigReadBack
 import PlasVerif.Proofs.ConfigBuiltins
@@ -18,16 +19,16 @@ for an arbitrary option table `T`, any number of files with any lines, any comma
 -/
 namespace PlasVerif.Properties.C16
 open PlasVerif.Model.Config PlasVerif.Spec.Config PlasVerif.Proofs.Config PlasVerif.Proofs.ConfigInterp
-  PlasVerif.Proofs.ConfigAcyclic
+  PlasVerif.Proofs.ConfigAcyclic PlasVerif.Proofs.ConfigDest
 
 /-! ## a small table for the non-vacuity examples: `[s] name : str = "d"`, `[s] n : int = 2`, `[s] flag : bool = True
 (--flag / !--no-flag)`, `[s] items : list = []`, `[s] map : dict of int = {}` -/
 def exT : Table := [
-  ⟨[115], [110, 97, 109, 101], .atom .str, .atom (.str [100]), [[45, 45, 110, 97, 109, 101]], []⟩,
-  ⟨[115], [110], .atom .int, .atom (.int 2), [[45, 45, 110]], []⟩,
-  ⟨[115], [102, 108, 97, 103], .atom .bool, .atom (.bool true), [[45, 45, 102, 108, 97, 103]], [[45, 45, 110, 111, 45, 102, 108, 97, 103]]⟩,
-  ⟨[115], [105, 116, 101, 109, 115], .list, .list [], [[45, 45, 105, 116, 101, 109, 115]], []⟩,
-  ⟨[115], [109, 97, 112], .dict .int false, .dict [], [[45, 45, 109, 97, 112]], []⟩]
+  ⟨[115], [110, 97, 109, 101], [115] ++ [110, 97, 109, 101], .atom .str, .atom (.str [100]), [[45, 45, 110, 97, 109, 101]], []⟩,
+  ⟨[115], [110], [115] ++ [110], .atom .int, .atom (.int 2), [[45, 45, 110]], []⟩,
+  ⟨[115], [102, 108, 97, 103], [115] ++ [102, 108, 97, 103], .atom .bool, .atom (.bool true), [[45, 45, 102, 108, 97, 103]], [[45, 45, 110, 111, 45, 102, 108, 97, 103]]⟩,
+  ⟨[115], [105, 116, 101, 109, 115], [115] ++ [105, 116, 101, 109, 115], .list, .list [], [[45, 45, 105, 116, 101, 109, 115]], []⟩,
+  ⟨[115], [109, 97, 112], [115] ++ [109, 97, 112], .dict .int false, .dict [], [[45, 45, 109, 97, 112]], []⟩]
 
 /-- file 1: `[s] n = 5`, `flag = no`, `items = a b`, `k = 7` (unknown key) -/
 def exF1 : File := [([115], [([110], [53]), ([102, 108, 97, 103], [110, 111]), ([105, 116, 101, 109, 115], [97, 32, 98]), ([107], [55])])]
@@ -41,7 +42,7 @@ def obs (r : Except Err St) (n : Nat) : Option (List Val) := r.toOption.map fun 
 /-- **Refinement.**  For every well-formed table, every list of files, every command line and every option:
     whenever the code's layering (`read` then `updateFromDict`, with their global loops, unknown-key routing and
     per-class conversions) finishes, the option holds exactly the value the property prescribes. -/
-theorem run_refines_den (T : Table) (hwf : WF T = true) (files : List File) (argv : List Occ) (st : St)
+theorem run_refines_den (T : Table) (hwf : WF T = true) (hwc : WFcli T = true) (files : List File) (argv : List Occ) (st : St)
     (h : run false T files argv = .ok st) (i : Nat) (o : Opt) (hi : T[i]? = some o) :
     den T files argv i = some (st i) := by
   simp only [WF, Bool.and_eq_true, List.all_eq_true] at hwf
@@ -63,6 +64,7 @@ theorem run_refines_den (T : Table) (hwf : WF T = true) (files : List File) (arg
       have hf := files_den hto h1
       have hu := updateFrom_spec T argv T 0 st1 st h i o hi
       simp only [Nat.zero_add] at hu
+      rw [updateOptD_eq hwc hi argv hp _ (denFiles_typed hf)] at hu
       have hc := cli_den (denFiles_typed hf) hu
       simp only [den, hi, mentions, bind, Option.bind]
       rw [hf]
@@ -72,7 +74,7 @@ theorem run_refines_den (T : Table) (hwf : WF T = true) (files : List File) (arg
 example : obs (run false exT [exF1, exF2] [⟨[45, 45, 102, 108, 97, 103], []⟩, ⟨[45, 45, 109, 97, 112], [[107], [49]]⟩]) 5
     = some [.atom (.str [100]), .atom (.int 9), .atom (.bool true), .list [[97], [98], [99]], .dict [([107], .int 1)]] := by
   decide
-example : WF exT = true := by decide
+example : WF exT = true ∧ WFcli exT = true := by decide
 
 /-! ## the clauses, read off the denotation (they hold of the code's result by `run_refines_den`) -/
 
@@ -98,10 +100,10 @@ theorem default_when_untouched (T : Table) (hwf : WF T = true) (files : List Fil
     | list xs => simp [typedDflt, hty, hd] at hto
 
 /-- … and the code yields it: the model's result for an untouched option is its default. -/
-theorem default_when_untouched_model (T : Table) (hwf : WF T = true) (files : List File) (argv : List Occ) (st : St)
+theorem default_when_untouched_model (T : Table) (hwf : WF T = true) (hwc : WFcli T = true) (files : List File) (argv : List Occ) (st : St)
     (h : run false T files argv = .ok st) (i : Nat) (o : Opt) (hi : T[i]? = some o)
     (hfiles : mentions T i o files = []) (hcli : cliOccs o argv = []) : st i = o.dflt := by
-  have h1 := run_refines_den T hwf files argv st h i o hi
+  have h1 := run_refines_den T hwf hwc files argv st h i o hi
   rw [default_when_untouched T hwf files argv i o hi hfiles hcli] at h1
   exact (Option.some.inj h1).symm
 
@@ -236,6 +238,24 @@ example : updateOpt exT[2] (.atom (.bool true)) [⟨[45, 45, 102, 108, 97, 103],
     updateOpt exT[2] (.atom (.bool false)) [⟨[45, 45, 110, 111, 45, 102, 108, 97, 103], []⟩, ⟨[45, 45, 102, 108, 97, 103], []⟩]
       = .ok (.atom (.bool true)) := by decide
 
+/-! ## the argparse namespace is keyed by `dest` -/
+
+/-- **Every option reads back its own occurrences**: `updateFromDict` of an option, as written (`data.get(self.name)`,
+    where the slot `self.name` collects every occurrence of every option string registered with that `dest`), is the
+    reading of the option's own occurrences, on every table whose dests and option strings are pairwise distinct. -/
+theorem updateFromDict_reads_own_occurrences (T : Table) (hwc : WFcli T = true) (i : Nat) (o : Opt) (hi : T[i]? = some o)
+    (argv : List Occ) (hp : parseArgs T argv = .ok ()) (cur : Val) (ht : typedVal o.ty cur = true) :
+    updateOptD T o cur argv = updateOpt o cur argv := updateOptD_eq hwc hi argv hp cur ht
+
+/-- why the hypothesis is needed: two string options `[a] u` (`--au`) and `[b] u` (`--bu`) registered with the same
+    dest `u`.  `--au X` alone also changes `[b] u`, which the property (and `den`) leaves at its default. -/
+def exS : Table := [
+  ⟨[97], [117], [117], .atom .str, .atom (.str [100]), [[45, 45, 97, 117]], []⟩,
+  ⟨[98], [117], [117], .atom .str, .atom (.str [101]), [[45, 45, 98, 117]], []⟩]
+theorem shared_dest_counterexample :
+    obs (run false exS [] [⟨[45, 45, 97, 117], [[88]]⟩]) 2 = some [.atom (.str [88]), .atom (.str [88])] ∧
+    den exS [] [⟨[45, 45, 97, 117], [[88]]⟩] 1 = some (.atom (.str [101])) ∧ WFcli exS = false := by decide
+
 /-! ## reading back -/
 
 /-- **Interpolation**: for every format string of the grammar (literal text without `%`, `%%`, `%(name)s` in any
@@ -284,15 +304,15 @@ theorem readBack_format (T : Table) (st : St) (f i : Nat) (segs : List Seg) (hwf
 
 /-- a table with a reference chain: `a = "x%(b)s"`, `b = "%(c)s%%"`, `c = 7` -/
 def exR : Table := [
-  ⟨[115], [97], .atom .str, .atom (.str (render [.lit [120], .ref [98]])), [[45, 45, 97]], []⟩,
-  ⟨[115], [98], .atom .str, .atom (.str (render [.ref [99], .pct])), [[45, 45, 98]], []⟩,
-  ⟨[115], [99], .atom .int, .atom (.int 7), [[45, 45, 99]], []⟩]
+  ⟨[115], [97], [115] ++ [97], .atom .str, .atom (.str (render [.lit [120], .ref [98]])), [[45, 45, 97]], []⟩,
+  ⟨[115], [98], [115] ++ [98], .atom .str, .atom (.str (render [.ref [99], .pct])), [[45, 45, 98]], []⟩,
+  ⟨[115], [99], [115] ++ [99], .atom .int, .atom (.int 7), [[45, 45, 99]], []⟩]
 
 /-- `a` reads back as `x7%` -/
 example : readBack exR (init exR) 0 = .ok (.atom (.str [120, 55, 37])) := by decide
 /-- a cycle `a = "%(a)s"` ends in `RecursionError` (as Python's recursion limit does) -/
-example : readBack [⟨[115], [97], .atom .str, .atom (.str [37, 40, 97, 41, 115]), [], []⟩]
-    (init [⟨[115], [97], .atom .str, .atom (.str [37, 40, 97, 41, 115]), [], []⟩]) 0 = .error .recursionError := by decide
+example : readBack [⟨[115], [97], [115] ++ [97], .atom .str, .atom (.str [37, 40, 97, 41, 115]), [], []⟩]
+    (init [⟨[115], [97], [115] ++ [97], .atom .str, .atom (.str [37, 40, 97, 41, 115]), [], []⟩]) 0 = .error .recursionError := by decide
 
 /-- **Interpolation terminates on acyclic references**: if every string an option holds (also every item of a list
     option) is a format string of the grammar whose references only name options of strictly lower rank, reading back
@@ -320,11 +340,15 @@ def strictTyped (o : Opt) : Bool :=
 theorem table_defaults_typed : PlasVerif.Generated.Config.table.all strictTyped = true := by decide
 
 /-- no option string is registered twice (argparse would refuse; makes `occurrences of a flag` unambiguous) -/
-def flagsDistinct (T : Table) : Bool :=
-  let fl := T.flatMap fun o => o.flags ++ o.noflags
-  fl.Nodup
-
 theorem table_flags_distinct : flagsDistinct PlasVerif.Generated.Config.table = true := by decide
+
+/-- no two options of the live table share an argparse `dest` (`option.name`): every option reads back its own slot
+    of the parsed command line.  (`images/base-url` and `document/base-url` share their *key*; their dests are
+    `image-base-url` and `base-url`.) -/
+theorem table_dests_distinct : destsDistinct PlasVerif.Generated.Config.table = true := by decide
+
+theorem table_wfcli : WFcli PlasVerif.Generated.Config.table = true := by
+  simp [WFcli, table_flags_distinct, table_dests_distinct]
 
 /-! ## the code does not raise inside the domain -/
 
@@ -332,20 +356,20 @@ theorem table_flags_distinct : flagsDistinct PlasVerif.Generated.Config.table = 
     command-line occurrence is a registered option string with arguments of the option's arity and type, every file
     value addressed to a scalar option converts (`inDomain`), and the denotation of every option is defined (dictionary
     entries convert, `--link` has 2 or 3 arguments), then `parse_args`, `read` (all files, all sections, all lines) and
-    `updateFromDict` (all options) finish.  No hypothesis on option strings being unambiguous is needed. -/
-theorem run_defined_on_domain (T : Table) (hwf : WF T = true) (files : List File) (argv : List Occ)
+    `updateFromDict` (all options) finish. -/
+theorem run_defined_on_domain (T : Table) (hwf : WF T = true) (hwc : WFcli T = true) (files : List File) (argv : List Occ)
     (hdom : inDomain T files argv = true)
     (hden : ∀ i o, T[i]? = some o → (den T files argv i).isSome = true) :
     ∃ st, run false T files argv = .ok st :=
-  PlasVerif.Proofs.ConfigTotal.run_total T hwf files argv hdom hden
+  PlasVerif.Proofs.ConfigTotal.run_total T hwf hwc files argv hdom hden
 
 /-- **Layering, both directions**: inside the domain the code finishes *and* every option holds the prescribed value. -/
-theorem layering_exact_on_domain (T : Table) (hwf : WF T = true) (files : List File) (argv : List Occ)
+theorem layering_exact_on_domain (T : Table) (hwf : WF T = true) (hwc : WFcli T = true) (files : List File) (argv : List Occ)
     (hdom : inDomain T files argv = true)
     (hden : ∀ i o, T[i]? = some o → (den T files argv i).isSome = true) :
     ∃ st, run false T files argv = .ok st ∧ ∀ i o, T[i]? = some o → den T files argv i = some (st i) := by
-  obtain ⟨st, h⟩ := run_defined_on_domain T hwf files argv hdom hden
-  exact ⟨st, h, fun i o hi => run_refines_den T hwf files argv st h i o hi⟩
+  obtain ⟨st, h⟩ := run_defined_on_domain T hwf hwc files argv hdom hden
+  exact ⟨st, h, fun i o hi => run_refines_den T hwf hwc files argv st h i o hi⟩
 
 /-- the command-line part alone: `parse_args` accepts every in-domain command line -/
 theorem parse_args_accepts_domain (T : Table) (argv : List Occ) (h : argv.all (occWf T) = true) :
@@ -511,10 +535,24 @@ theorem lookup_other_error_propagates (get : Nat → Except Err Val) (j : Nat) (
 /-- `[sa] base-url = x%(nosuch)s`, `[sb] base-url = second`, `[sb] alpha = <%(base-url)s>`: `alpha` reads `<second>`
     because the first candidate raises `KeyError` inside its own interpolation -/
 def exQ : Table := [
-  ⟨[115, 97], [98], .atom .str, .atom (.str (render [.lit [120], .ref [110]])), [], []⟩,
-  ⟨[115, 98], [98], .atom .str, .atom (.str [50]), [], []⟩,
-  ⟨[115, 98], [97], .atom .str, .atom (.str (render [.lit [60], .ref [98], .lit [62]])), [], []⟩]
+  ⟨[115, 97], [98], [115, 97] ++ [98], .atom .str, .atom (.str (render [.lit [120], .ref [110]])), [], []⟩,
+  ⟨[115, 98], [98], [115, 98] ++ [98], .atom .str, .atom (.str [50]), [], []⟩,
+  ⟨[115, 98], [97], [115, 98] ++ [97], .atom .str, .atom (.str (render [.lit [60], .ref [98], .lit [62]])), [], []⟩]
 example : readBack exQ (init exQ) 2 = .ok (.atom (.str [60, 50, 62])) ∧ readBack exQ (init exQ) 0 = .error .keyError := by decide
+
+/-! ## `section.get(key, default)` -/
+
+/-- `get` is `__getitem__` whenever that returns: the same interpolated value -/
+theorem get_is_getitem (T : Table) (st : St) (i : Nat) (v : Val) (h : readBack T st i = .ok v) :
+    getDefault T st i = .ok (some v) := by simp [getDefault, h]
+
+/-- `get` gives the default exactly on `KeyError` (an absent key, or a reference to a name no option has);
+    every other exception of the interpolation propagates -/
+theorem get_default_on_keyerror (T : Table) (st : St) (i : Nat) :
+    (readBack T st i = .error .keyError → getDefault T st i = .ok none) ∧
+    (∀ e, e ≠ .keyError → readBack T st i = .error e → getDefault T st i = .error e) := by
+  refine ⟨fun h => by simp [getDefault, h], fun e he h => ?_⟩
+  cases e <;> simp_all [getDefault]
 
 /-! ## the executable oracle of the spec is met -/
 
@@ -536,13 +574,16 @@ example : specReadBack exR (fun i => some (init exR i)) (fuelFor exR) 0 = some (
 /-- **End to end** (this is the comparison the driver's `model` and `spec` columns make, for all inputs): inside the
     domain the layering finishes, and every option for which the spec's oracle (denotation, then read-back) is defined
     reads back as exactly that value. -/
-theorem model_meets_spec_oracle (T : Table) (hwf : WF T = true) (files : List File) (argv : List Occ)
+theorem model_meets_spec_oracle (T : Table) (hwf : WF T = true) (hwc : WFcli T = true) (files : List File) (argv : List Occ)
     (hdom : inDomain T files argv = true)
     (hden : ∀ i o, T[i]? = some o → (den T files argv i).isSome = true) :
     ∃ st, run false T files argv = .ok st ∧
-      ∀ i v, specReadBack T (den T files argv) (fuelFor T) i = some v → readBack T st i = .ok v := by
-  obtain ⟨st, hrun, hval⟩ := layering_exact_on_domain T hwf files argv hdom hden
-  refine ⟨st, hrun, fun i v h => readBack_meets_oracle T (den T files argv) st ?_ (fuelFor T) i v h⟩
+      ∀ i v, specReadBack T (den T files argv) (fuelFor T) i = some v →
+        readBack T st i = .ok v ∧ getDefault T st i = .ok (some v) := by
+  obtain ⟨st, hrun, hval⟩ := layering_exact_on_domain T hwf hwc files argv hdom hden
+  refine ⟨st, hrun, fun i v h => ?_⟩
+  have hrb : readBack T st i = .ok v := readBack_meets_oracle T (den T files argv) st ?_ (fuelFor T) i v h
+  · exact ⟨hrb, by simp [getDefault, hrb]⟩
   intro j x hj
   cases hT : T[j]? with
   | none => simp [den, hT] at hj
@@ -556,6 +597,6 @@ theorem live_table_layering (files : List File) (argv : List Occ) (st : St)
     (h : run false PlasVerif.Generated.Config.table files argv = .ok st) (i : Nat) (o : Opt)
     (hi : PlasVerif.Generated.Config.table[i]? = some o) :
     den PlasVerif.Generated.Config.table files argv i = some (st i) :=
-  run_refines_den _ table_wf files argv st h i o hi
+  run_refines_den _ table_wf table_wfcli files argv st h i o hi
 
 end PlasVerif.Properties.C16
